@@ -37,6 +37,8 @@ type Case struct {
 	Spelling string `json:"spelling"` // exact | upper | mixed | latest-added | latest-dropped
 	Route    string `json:"route"`    // proxy | provider | anthropic
 	BigBody  bool   `json:"big_body"` // request body padded above the 1 MiB inspection limit
+	Chunked  bool   `json:"chunked"`  // request body sent without Content-Length (Transfer-Encoding: chunked)
+	Twice    bool   `json:"twice"`    // the latest listing is registered twice back to back (two discovery passes)
 }
 
 type rigT struct {
@@ -174,6 +176,15 @@ func runCase(c Case) []ev.Violation {
 			_ = r.s.RegisterModels(r.be[i].URL(), other)
 		}
 	}
+	if c.Twice {
+		for i := 0; i < c.N; i++ {
+			if L&(1<<i) != 0 {
+				_ = r.s.RegisterModels(r.be[i].URL(), registered, other)
+			} else {
+				_ = r.s.RegisterModels(r.be[i].URL(), other)
+			}
+		}
+	}
 	if hadPrev {
 		time.Sleep(40 * time.Millisecond)
 	}
@@ -193,7 +204,11 @@ func runCase(c Case) []ev.Violation {
 		pad := strings.Repeat("lorem ipsum dolor sit amet ", 45000)
 		body = strings.Replace(body, `"content":"hi"`, `"content":"hi `+pad+`"`, 1)
 	}
-	req, _ := http.NewRequest("POST", r.s.BaseURL+path, strings.NewReader(body))
+	var rd io.Reader = strings.NewReader(body)
+	if c.Chunked {
+		rd = struct{ io.Reader }{rd} // length unknown to net/http: sent chunked
+	}
+	req, _ := http.NewRequest("POST", r.s.BaseURL+path, rd)
 	req.Header.Set("Content-Type", "application/json")
 	resp, err := client.Do(req)
 	if err != nil {
@@ -225,9 +240,15 @@ func runCase(c Case) []ev.Violation {
 	if c.BigBody {
 		rec.Class("body>1MiB")
 	}
+	if c.Chunked {
+		rec.Class("body=chunked")
+	}
+	if c.Twice {
+		rec.Class("history=listing-registered-twice")
+	}
 	decision := resp.Header.Get("X-Olla-Routing-Decision")
-	desc := fmt.Sprintf("engine=%s strategy=%s fallback=%s refresh_on_miss=%v route=%s; %d endpoints, healthy=%v, listing M=%v (earlier also %v), model registered as %q requested as %q -> status %d, decision header %q, served by %d (contacted %d), body %q",
-		c.Engine, c.Strategy, c.Fallback, c.Refresh, c.Route, c.N, bits(H, c.N), bits(L, c.N), bits(P&^L, c.N), registered, requested, resp.StatusCode, decision, served, contacted, trunc(rb, 140))
+	desc := fmt.Sprintf("engine=%s strategy=%s fallback=%s refresh_on_miss=%v route=%s chunked=%v twice=%v; %d endpoints, healthy=%v, listing M=%v (earlier also %v), model registered as %q requested as %q -> status %d, decision header %q, served by %d (contacted %d), body %q",
+		c.Engine, c.Strategy, c.Fallback, c.Refresh, c.Route, c.Chunked, c.Twice, c.N, bits(H, c.N), bits(L, c.N), bits(P&^L, c.N), registered, requested, resp.StatusCode, decision, served, contacted, trunc(rb, 140))
 	cfgTag := c.Strategy + "/" + c.Fallback
 	ok2xx := resp.StatusCode >= 200 && resp.StatusCode < 300
 	fallbackAll := c.Fallback == "all" && c.Strategy != "strict"
@@ -345,8 +366,10 @@ func genCase(t *rapid.T) Case {
 		Route:    rapid.SampledFrom([]string{"proxy", "proxy", "provider", "anthropic"}).Draw(t, "route"),
 	}
 	c.BigBody = rapid.IntRange(0, 9).Draw(t, "big") == 0
+	c.Chunked = rapid.IntRange(0, 3).Draw(t, "chunked") == 0
 	if rapid.IntRange(0, 2).Draw(t, "hist") == 0 {
 		c.Prev = rapid.IntRange(0, (1<<n)-1).Draw(t, "prev")
+		c.Twice = rapid.Bool().Draw(t, "twice")
 	}
 	return c
 }
@@ -364,7 +387,7 @@ func enumerate() {
 					continue
 				}
 				e := []string{"sherpa", "olla"}[n%2]
-				ev.Direct(rec, "table", Case{Engine: e, Strategy: cf.strategy, Fallback: cf.fallback, Refresh: cf.refresh, N: 4, H: h, L: l, Spelling: "exact", Route: "proxy"}, runCase)
+				ev.Direct(rec, "table", Case{Engine: e, Strategy: cf.strategy, Fallback: cf.fallback, Refresh: cf.refresh, N: 4, H: h, L: l, Spelling: "exact", Route: "proxy", Chunked: n%5 == 0}, runCase)
 			}
 		}
 	}
@@ -372,7 +395,7 @@ func enumerate() {
 
 func TestC09(t *testing.T) {
 	defer stopRigs()
-	rec.SetRule("one production stack per (engine, strategy, fallback, refresh-on-miss); the table strategy x fallback x healthy-subset(4) x listing-subset(4) is enumerated completely with the exact spelling on the proxy route; rapid adds endpoint counts 1..4, model spellings (case, :latest), the provider and Anthropic routes and a discovery history in which an endpoint listed the model earlier and then dropped it. The serving backend, client status and X-Olla-Routing-Decision header are judged. non-trivial = healthy set and listing set differ and both non-empty; distinct by full case")
+	rec.SetRule("one production stack per (engine, strategy, fallback, refresh-on-miss); the table strategy x fallback x healthy-subset(4) x listing-subset(4) is enumerated completely with the exact spelling on the proxy route; rapid adds endpoint counts 1..4, model spellings (case, :latest), the provider and Anthropic routes, request bodies above 1 MiB and bodies sent chunked (no Content-Length), and a discovery history in which an endpoint listed the model earlier and then dropped it (the new listing registered once, or twice back to back). The serving backend, client status and X-Olla-Routing-Decision header are judged. non-trivial = healthy set and listing set differ and both non-empty; distinct by full case")
 	rec.Assume("safety direction is asserted for every spelling against the case's listing relation; the service direction (served / 404 / 503 / fallback to the healthy set) only for the exact lower-case spelling")
 	rec.Assume("discovery strategy with fallback 'all' and refresh-on-miss off: documentation is silent, either service by a healthy endpoint or an honest 404/503 rejection is accepted")
 	if ev.Replay(t, rec, "table", runCase) {
